@@ -333,6 +333,87 @@ func ruleEN3(c *Ctx) *rule {
 	if n == 0 {
 		lost("no store into task.Task.Commands")
 	}
+	// every recorded command is the template's output: none is the raw text let through on a side path
+	for _, cl := range c.taskClassLoops() {
+		if cl.source != "Commands" {
+			continue
+		}
+		for i, app := range cl.apps["Commands"] {
+			k := fmt.Sprintf("task.New Commands append#%d is template output", i+1)
+			var elems []ssa.Value
+			if len(app.Call.Args) == 2 {
+				if sl, isSl := app.Call.Args[1].(*ssa.Slice); isSl {
+					if al, isAl := sl.X.(*ssa.Alloc); isAl && al.Referrers() != nil {
+						for _, ref := range *al.Referrers() {
+							if ia, isIA := ref.(*ssa.IndexAddr); isIA && ia.Referrers() != nil {
+								for _, r2 := range *ia.Referrers() {
+									if st, isSt := r2.(*ssa.Store); isSt && st.Addr == ssa.Value(ia) {
+										elems = append(elems, st.Val)
+									}
+								}
+							}
+						}
+					}
+				}
+			}
+			if len(elems) == 0 {
+				continue
+			}
+			raw := ""
+			isRaw := func(o ssa.Value) bool {
+				switch x := o.(type) {
+				case *ssa.UnOp:
+					return x.Op == token.MUL && fieldKey(x.X) == "ast.Command.Command"
+				case *ssa.Field:
+					return fieldKey(x) == "ast.Command.Command"
+				}
+				return false
+			}
+			// a shortcut for text that holds no action delimiter at all is the template's own behaviour: the raw text may
+			// flow in on an edge that is guarded by !strings.Contains(text, "{{") (or "{")
+			noDelims := func(b *ssa.BasicBlock) bool {
+				for _, g := range cl.fi.necessaryGuards(b) {
+					call, isCall := g.cond.(*ssa.Call)
+					if !isCall || g.pol || calleeName(call.Common()) != "strings.Contains" || len(call.Common().Args) != 2 {
+						continue
+					}
+					if k, isC := constString(call.Common().Args[1]); isC && (k == "{{" || k == "{") {
+						for _, o := range origins(call.Common().Args[0]) {
+							if isRaw(o) {
+								return true
+							}
+						}
+					}
+				}
+				return false
+			}
+			seenV := map[ssa.Value]bool{}
+			var walk func(v ssa.Value, via *ssa.BasicBlock)
+			walk = func(v ssa.Value, via *ssa.BasicBlock) {
+				if seenV[v] {
+					return
+				}
+				seenV[v] = true
+				if phi, isPhi := v.(*ssa.Phi); isPhi {
+					for j, e := range phi.Edges {
+						walk(e, phi.Block().Preds[j])
+					}
+					return
+				}
+				if isRaw(v) && (via == nil || !noDelims(via)) {
+					raw = c.pos(v.Pos())
+				}
+			}
+			for _, e := range elems {
+				walk(e, nil)
+			}
+			if raw != "" {
+				r.bad(k, c.ipos(app), "on some path the command text itself is recorded, not the output of the template: a command the shortcut misjudges is run and reported uninterpolated, and a malformed interpolation is no longer an error")
+			} else {
+				r.ok(k, c.ipos(app), "no origin of the recorded command is the raw command text")
+			}
+		}
+	}
 	return r
 }
 
